@@ -983,7 +983,10 @@ func runC14(c *Ctx) {
 						if name == "slices.MapErr" {
 							val = &Term{Op: "extract", Args: []*Term{call.Res}, N: 0}
 						}
-						if st == nil || !it.isKey(st.Addr.Args[1]) || st.Val.Key() != val.Key() || !isLenOf(st.Addr.Args[0].Args[0], s) {
+						// on the path that returns (nil, err) the store may be skipped: the partial result is thrown away
+						discarded := name == "slices.MapErr" && p.End == EndReturn && st == nil && len(p.Rets) == 2 && p.Rets[0].IsNil() &&
+							p.Rets[1].Key() == (&Term{Op: "extract", Args: []*Term{call.Res}, N: 1}).Key()
+						if !discarded && (st == nil || !it.isKey(st.Addr.Args[1]) || st.Val.Key() != val.Key() || !isLenOf(st.Addr.Args[0].Args[0], s)) {
 							ok, why = false, "result[i] is not set to conv(slice[i]) in a make(len(slice)) result"
 						}
 					}
